@@ -336,8 +336,8 @@ RefDictOK(items) == Len(items) % 2 = 0 /\ \A k \in 1..Len(items) : k % 2 = 1 => 
 
 \* The parser.  closer: 0 = end of input, 93 = "]", 62 = ">>".  mode "obj":
 \* only objects may occur (any other keyword is an error); mode "ops": at
-\* the top level other keywords are operators (7.8.2) and the scan stops
-\* after the operator ID, where inline image data begins.
+\* the top level any other keyword is an operator (7.8.2) and ends the scan:
+\* the items are then its operands followed by the operator itself.
 \* Returns <<items, position>>; items = <<Err>> on error.
 Failed(items) == items # <<>> /\ items[Len(items)].t = "err"
 bID == <<73, 68>>
@@ -369,8 +369,7 @@ RefParse(s, i0, closer, items, mode) ==
        LET e == RefRegEnd(s, i)
            x == RefTokVal(SubSeq(s, i, e - 1))
        IN IF x.t # "op" THEN RefParse(s, e, closer, Append(items, x), mode)
-          ELSE IF mode = "ops" /\ closer = 0
-               THEN (IF x.v = bID THEN <<Append(items, x), e>> ELSE RefParse(s, e, closer, Append(items, x), mode))
+          ELSE IF mode = "ops" /\ closer = 0 THEN <<Append(items, x), e>>
           ELSE IF x.v = <<82>> THEN RefParse(s, e, closer, RefCollapse(items), mode)
           ELSE bad
      ELSE bad      \* ")", "{", "}" outside a string
